@@ -7,9 +7,21 @@ use serde_json::json;
 use std::sync::atomic::{AtomicU64, Ordering};
 use vmodel::glue::AsData;
 use vmodel::shape::*;
-use vmodel::spec::spec_encode;
 
 const CANARY: u8 = 0xA5;
+
+/// the real plain encoding (what unbounded serialisation produces); None if the encoder refuses
+pub fn real_plain(v: &Val) -> Option<Vec<u8>> {
+    trap(|| postcard::to_allocvec(&AsData(v))).ok()?.ok()
+}
+
+/// the real plain decoding of a byte string under a shape: (value, consumed) or the error
+pub fn real_decode(s: &Shape, bytes: &[u8]) -> Result<(Val, usize), postcard::Error> {
+    match trap(|| crate::dynval::with_shape(s, || postcard::take_from_bytes::<crate::dynval::Dyn>(bytes).map(|(d, rem)| (d.0, bytes.len() - rem.len())))) {
+        Ok(r) => r,
+        Err(_) => Err(postcard::Error::DeserializeBadEncoding),
+    }
+}
 
 /// (shape, values) corpus shared by the framing checks
 pub fn value_corpus(k: usize, cap: usize, per_shape_limit: usize) -> Vec<(Shape, Vec<Val>)> {
@@ -65,9 +77,10 @@ pub fn run(ctx: &Ctx) {
     let nvals: u64 = corpus.iter().map(|(_, v)| v.len() as u64).sum();
     corpus.par_iter().enumerate().for_each(|(si, (s, vals))| {
         for (vi, v) in vals.iter().enumerate() {
-            let plain = match spec_encode(v) {
-                Ok(p) => p,
-                Err(_) => continue,
+            // the reference for "the bytes unbounded serialisation produces" is the real growable-vector encoder
+            let plain = match real_plain(v) {
+                Some(p) => p,
+                None => continue,
             };
             let d = AsData(v);
             // size-measuring call
